@@ -76,7 +76,7 @@ def run(ctx, rep):
         rep.ob('C04.missing', f'get|{n}', okk, f'lookup {t["f"].get("name")} in compute_root_from_queries is {verdict} ({sorted(kinds)}): a missing node must become Err',
                cr.loc(t['line']), cfg)
         n += 1
-    rep.floor('C04.missing', 'lookups in compute_root_from_queries', n, 4)
+    rep.floor('C04.missing', 'lookups in compute_root_from_queries', n, 2)
     import panics
     ps = [s for s in panics.sites(db, cr) if not (s['kind'] == 'assert' and s['detail'].startswith('Overflow'))]
     rep.ob('C04.missing', 'no-crash-sites', not ps, f'crash sites in compute_root_from_queries other than cursor arithmetic: {[(s["kind"], s["detail"]) for s in ps]}', cr.loc(), cfg)
@@ -108,7 +108,7 @@ def run(ctx, rep):
             rep.ob('C04.select', f'flag|{n}', s.startswith('ge(a3,') and s.endswith('.depth)'),
                    f'is_verifier_friendly = {s} (expected n_verifier_friendly_layers >= current.depth)', cr.loc(t['line']), cfg)
             n += 1
-    rep.floor('C04.select', 'hash_friendly_unfriendly call sites', n, 3)
+    rep.floor('C04.select', 'hash_friendly_unfriendly call sites', n, 1)
     # (e) parent / stop / pair test
     texts = {'div_rem': [], 'eq': [], 'agg': []}
     for bi, t in cr.calls():
@@ -131,10 +131,90 @@ def run(ctx, rep):
     rep.ob('C04.index', 'stop-at-root', ok_stop, f'comparisons: {texts["eq"]}', cr.loc(), cfg)
     rep.ob('C04.index', 'pair-test', ok_pair and ok_bit, 'sibling in queue iff bit == 0 and index + 1 == next.index', cr.loc(), cfg)
     rep.ob('C04.index', 'parent-node', ok_par, f'pushed parents: {texts["agg"][:2]}', cr.loc(), cfg)
-    # left/right order by bit: hash(current, sibling) when bit == 0, hash(sibling, current) otherwise
-    orders = []
+    # left/right order by bit, path by path: hash(current, sibling) when bit == 0, hash(sibling, current) otherwise; the
+    # sibling is the next queue entry only after index + 1 == next.index was tested true, else the next authentication node
+    def unwrap(t):
+        while isinstance(t, tuple) and t and t[0] in ('ok_or', 'ok_or_else') and len(t) >= 2:
+            t = t[1]
+        return t
+
+    def plus1(t):
+        if isinstance(t, tuple) and t[0] == 'proj' and t[2] == '0':
+            t = t[1]
+        return isinstance(t, tuple) and t[0] == 'add' and set(t[1:]) == {('arg', 2), ('val', 1)}
+
+    def node(t):
+        """'cur' / 'next' / 'auth' for queue[start] / queue[start+1] / authentications[auth_start]"""
+        t = unwrap(t)
+        if isinstance(t, tuple) and t[0] == 'proj' and isinstance(t[2], tuple) and t[2][0] == 'idx':
+            if t[1] == ('arg', 1) and t[2][1] == ('arg', 2):
+                return 'cur'
+            if t[1] == ('arg', 1) and plus1(t[2][1]):
+                return 'next'
+            if t[1] == ('arg', 4) and t[2][1] == ('arg', 5):
+                return 'auth'
+        return None
+
+    def value_of(t):
+        t = unwrap(t)
+        if isinstance(t, tuple) and t[0] == 'proj' and t[2] == 'value':
+            return node(t[1])
+        return 'auth' if node(t) == 'auth' else None
+
+    def is_bit_test(c):
+        # eq(div_rem(cur.index, 2).1, 0)
+        if not (isinstance(c, tuple) and c[0] == 'eq' and ('val', 0) in c[1:]):
+            return False
+        o = [x for x in c[1:] if x != ('val', 0)]
+        if len(o) != 1:
+            return False
+        o = o[0]
+        return isinstance(o, tuple) and o[0] == 'proj' and o[2] == '1' and isinstance(o[1], tuple) and o[1][0] == 'div_rem' and \
+            isinstance(o[1][1], tuple) and o[1][1][0] == 'proj' and o[1][1][2] == 'index' and node(o[1][1][1]) == 'cur' and o[1][2] == ('val', 2)
+
+    def is_pair_test(c):
+        # eq(add(cur.index, 1), next.index)
+        if not (isinstance(c, tuple) and c[0] == 'eq' and len(c) == 3):
+            return False
+        for a, b in ((c[1], c[2]), (c[2], c[1])):
+            if isinstance(a, tuple) and a[0] == 'add' and ('val', 1) in a[1:] and \
+                    any(isinstance(x, tuple) and x[0] == 'proj' and x[2] == 'index' and node(x[1]) == 'cur' for x in a[1:]) and \
+                    isinstance(b, tuple) and b[0] == 'proj' and b[2] == 'index' and node(b[1]) == 'next':
+                return True
+        return False
+    seen_orders = set()
+    bad_paths = []
+    n_paths = 0
     for bi, t in cr.calls():
-        if t['f'].get('resolved') == HASH_FU:
-            orders.append(tuple('cur' if exprtree.show(Tr.operand(a)).endswith('.value') and 'authentications' not in exprtree.show(Tr.operand(a)) else 'auth'
-                                if 'a4' in exprtree.show(Tr.operand(a)) else 'other' for a in t['args'][:2]))
-    rep.ob('C04.index', 'left-right', ('cur', 'auth') in orders and ('auth', 'cur') in orders, f'argument orders of the node hash: {orders}', cr.loc(), cfg)
+        if t['f'].get('resolved') != HASH_FU:
+            continue
+        ps = exprtree.paths_to(cr, bi)
+        if ps is None:
+            rep.fail_closed('C04.index', 'too many paths to a node-hash call in compute_root_from_queries')
+            continue
+        for pth in ps:
+            PT = exprtree.PathTrees(db, cr, pth)
+            if not PT.consistent():
+                continue
+            n_paths += 1
+            dec = PT.decisions()
+            bit = [v != '0' for c, v in dec if is_bit_test(c)]
+            pair = [v != '0' for c, v in dec if is_pair_test(c)]
+            a0, a1 = value_of(PT.operand(t['args'][0])), value_of(PT.operand(t['args'][1]))
+            order = (a0, a1)
+            if not bit:
+                bad_paths.append((t['line'], f'{order} hashed on a path that never tests the low bit of the index'))
+            elif bit[0] and order == ('cur', 'next') and pair and pair[0]:
+                seen_orders.add('merge')
+            elif bit[0] and order == ('cur', 'auth'):
+                seen_orders.add('left')
+            elif not bit[0] and order == ('auth', 'cur'):
+                seen_orders.add('right')
+            else:
+                bad_paths.append((t['line'], f'bit==0 is {bit[0]}, index+1==next.index is {pair[:1]}: hashes {order}'))
+    okl = not bad_paths and seen_orders == {'merge', 'left', 'right'}
+    rep.ob('C04.index', 'left-right', okl,
+           f'node hash argument order on {n_paths} paths: ' + ('(current, next) when bit==0 and index+1==next.index; (current, auth) when bit==0; '
+                                                              '(auth, current) when bit==1' if okl else
+                                                              f'cases seen {sorted(seen_orders)}; offending: {bad_paths[:3]}'),
+           cr.loc(bad_paths[0][0]) if bad_paths else cr.loc(), cfg)
